@@ -13,4 +13,9 @@ func extraMain(cmd string, args []string) bool {
 
 var extraCmds = map[string]func([]string){
 	"logbuf": records.LogbufMain,
+	"plan":   records.PlanMain,
+	"merge":  records.MergeMain,
+	"load":   records.LoadMain,
+	"env":    records.EnvMain,
+	"probe":  records.ProbeMain,
 }
